@@ -214,8 +214,8 @@ func (w *Walker) RunConcurrent(start *tlc.Node, rng *rand.Rand, goroutines, opsP
 	replay := map[string]any{"universe": m.U, "sequential_prefix": prefix, "concurrent_history": hist, "final": obsJSON(final)}
 	// the clauses of C10 at the quiescent point
 	for _, f := range env.Monitor(nil, final, Label{Name: "Concurrent", Raw: "concurrent calls"}, nil, m.States[cur].Stale, true) {
-		if f.key == "inputs-available:stale-after-disconnect" || (f.key == "inputs-available" && len(m.States[cur].Stale) > 0) {
-			continue // inherited from the sequential prefix (known defect), judged there
+		if f.key == "inputs-available" && len(m.States[cur].Stale) > 0 {
+			continue // inherited from the sequential prefix, judged there
 		}
 		w.Ctx.Violation("concurrent:"+f.key, fmt.Sprintf("universe %s, after concurrent calls: %s", m.U.Name, f.what), replay)
 	}
